@@ -638,7 +638,8 @@ example : Spec.Timeout.denote [43, 53, 83] = none ∧
     stage (headerTimeout [[43, 53, 83]]) (some 7) (answer (some 5)) = Done.inner 5 := by decide
 example : configured [.timeout 5, .layer, .other, .connectTimeout 1] = some 5 := by decide
 example : setTimeouts [10000000000, 5] = some [[53, 110]] := by decide
-example : latePoll (some 100) (some 350) 300 = Done.timeout 300 := by decide
+example : latePoll (some 100) (some 350) 300 = Done.timeout 300 :=
+  (C09_deadline_counts_from_dispatch 100 300 (some 350) (by intro l h; cases h; decide)).1
 example : latePoll (some 100) (some 250) 300 = Done.inner 300 := by decide   -- the window: either is acceptable
 example : lateCutLazy (some 100) (answer (some 350)) 300 = Done.inner 350 := by decide
 example : endToEndLate none (some 100) none (some 350) 300 = Done.timeout 300 := by decide
